@@ -418,7 +418,8 @@ def local_names(fn):
 EXPECT_ORIGIN = {
     'np': 'module numpy',
     'range': 'builtin', 'len': 'builtin', 'int': 'builtin', 'max': 'builtin', 'float': 'builtin', 'bool': 'builtin',
-    'isinstance': 'builtin', 'ValueError': 'builtin', 'list': 'builtin', 'set': 'builtin', 'random': 'module random',
+    'isinstance': 'builtin', 'ValueError': 'builtin', 'list': 'builtin', 'set': 'builtin', 'enumerate': 'builtin', 'random': 'module random',
+    'randmio_und_signed': 'def bct/algorithms/reference.py:randmio_und_signed', 'randmio_dir_signed': 'def bct/algorithms/reference.py:randmio_dir_signed',
     'binarize': 'def bct/utils/other.py:binarize', 'normalize': 'def bct/utils/other.py:normalize',
     'invert': 'def bct/utils/other.py:invert', 'NotImplementedError': 'builtin',
     'cuberoot': 'def bct/utils/miscellaneous_utilities.py:cuberoot',
@@ -652,7 +653,7 @@ class _Scope(object):
         self.bound = set()
 
 
-def _pin_renameable(fn):
+def _pin_renameable(fn, with_pos=False):
     """names of `fn` that may be renamed without changing what any occurrence denotes: bound somewhere inside `fn`, not a
     parameter (of `fn` or of a nested function / lambda), not bound by an import, not declared global / nonlocal, and every
     occurrence (in `fn` or in a nested scope) resolves to a binding inside `fn` (never to a module-level name or a builtin).
@@ -744,7 +745,132 @@ def _pin_renameable(fn):
         return False
     bad = {nm_ for nm_, sc in occ if not resolves(nm_, sc)}
     names = [nm_ for nm_ in first if nm_ not in params and nm_ not in fixed and nm_ not in bad]
-    return sorted(names, key=lambda nm_: first[nm_])
+    names = sorted(names, key=lambda nm_: first[nm_])
+    return (names, first) if with_pos else names
+
+
+class _Web(object):
+    """one renameable variable: `name`, the nodes that carry it (`Name` nodes; nested definitions and exception handlers for a
+    whole-routine variable), the position of its first binding, and — for a loop variable that has been split off — its `for`"""
+
+    def __init__(self, name, nodes, pos, loop=None):
+        self.name, self.nodes, self.pos, self.loop = name, nodes, pos, loop
+
+
+def _local_webs(fn):
+    """The renameable locals of `fn` (`_pin_renameable`) as independent variables, in the order of their first binding.
+    A name is one variable for the whole routine, except for **loop variables that are re-bound by every loop that uses them**:
+    a name `v` is split into one variable per `for` statement when (1) every binding of `v` is a name in the target of a
+    `for` statement (`for v in …`, `for q, v in …`), (2) every other occurrence of `v` lies in the *body* of a `for` statement
+    that binds `v` (not in its iterable, not in its `else`, not after it), (3) no `for` that binds `v` is nested in another one
+    that binds `v`, (4) `v` does not occur in a nested function, lambda or comprehension, and (5) the routine does not mention
+    `locals`, `vars`, `globals`, `eval`, `exec` or `dir`.  Under these conditions the value a loop leaves in `v` is never read,
+    so the loops use independent variables that merely share a name.  -> [_Web] or None (class definition inside)"""
+    res = _pin_renameable(fn, with_pos=True)
+    if res is None:
+        return None
+    names, first = res
+    cand = set(names)
+    if any(isinstance(nd, ast.Name) and nd.id in ('locals', 'vars', 'globals', 'eval', 'exec', 'dir') for nd in ast.walk(fn)):
+        cand = set()
+    loops = {}          # name -> {id(for): (for, [nodes])}
+    plain = {}          # name -> [nodes] (every carrier of the name, also in nested scopes)
+
+    def targets(t):
+        if isinstance(t, ast.Name):
+            return [t]
+        if isinstance(t, (ast.Tuple, ast.List)):
+            return [x for e in t.elts for x in targets(e)]
+        if isinstance(t, ast.Starred):
+            return targets(t.value)
+        return []
+
+    def note(name, node):
+        plain.setdefault(name, []).append(node)
+
+    def visit(node, stack, nested):
+        """stack: [(for statement, part)] of the enclosing `for` statements of the routine's own scope, innermost last"""
+        if isinstance(node, (ast.FunctionDef, ast.AsyncFunctionDef)):
+            note(node.name, node)
+            cand.discard(node.name)
+            for ch in ast.iter_child_nodes(node):
+                visit(ch, stack, True)
+            return
+        if isinstance(node, (ast.Lambda, ast.ListComp, ast.SetComp, ast.DictComp, ast.GeneratorExp)):
+            for ch in ast.iter_child_nodes(node):
+                visit(ch, stack, True)
+            return
+        if isinstance(node, ast.ExceptHandler) and node.name:
+            note(node.name, node)
+            cand.discard(node.name)
+        if isinstance(node, ast.AsyncFor):
+            for x in targets(node.target):
+                cand.discard(x.id)
+        if isinstance(node, ast.For) and not nested:
+            tn = targets(node.target)
+            tset = {x.id for x in tn}
+            for f_, _part in stack:
+                inner = {x.id for x in targets(f_.target)} & tset
+                for nm_ in inner:
+                    cand.discard(nm_)                          # (3) nested loops over the same name
+            for x in tn:
+                note(x.id, x)
+                loops.setdefault(x.id, {}).setdefault(id(node), (node, []))[1].append(x)
+            # whatever else the target contains (`for D[i], _ in …`) is read before the binding
+            for sub in ast.walk(node.target):
+                if isinstance(sub, ast.Name) and sub not in tn:
+                    visit(sub, stack + [(node, 'target')], nested)
+            visit(node.iter, stack + [(node, 'iter')], nested)
+            for st in node.body:
+                visit(st, stack + [(node, 'body')], nested)
+            for st in node.orelse:
+                visit(st, stack + [(node, 'orelse')], nested)
+            return
+        if isinstance(node, ast.Name):
+            note(node.id, node)
+            if nested:
+                cand.discard(node.id)                          # (4)
+            elif isinstance(node.ctx, (ast.Store, ast.Del)):
+                cand.discard(node.id)                          # (1) a binding that is not a `for` target
+            else:
+                home = None
+                for f_, part in reversed(stack):
+                    if node.id in {x.id for x in targets(f_.target)}:
+                        home = (f_, part)
+                        break
+                if home is None or home[1] != 'body':
+                    cand.discard(node.id)                      # (2)
+                else:
+                    loops[node.id][id(home[0])][1].append(node)
+            return
+        for ch in ast.iter_child_nodes(node):
+            visit(ch, stack, nested)
+    for st in fn.body:
+        visit(st, [], False)
+    webs = []
+    for nm_ in names:
+        if nm_ in cand and nm_ in loops:
+            for f_, nodes in loops[nm_].values():
+                webs.append(_Web(nm_, nodes, min((x.lineno, x.col_offset) for x in nodes if isinstance(x.ctx, ast.Store)), loop=f_))
+        else:
+            webs.append(_Web(nm_, plain.get(nm_, []), first[nm_]))
+    webs.sort(key=lambda w: w.pos)
+    return webs
+
+
+def _rename_webs(webs, new_names):
+    """rename in place, variable by variable (never parameters, attributes, keywords)"""
+    for w, nn in zip(webs, new_names):
+        for nd in w.nodes:
+            if isinstance(nd, ast.Name):
+                nd.id = nn
+            else:
+                nd.name = nn        # nested definition, exception handler
+
+
+def _nested_fors(a, b):
+    """is one of the two `for` statements inside the other"""
+    return any(x is b for x in ast.walk(a)) or any(x is a for x in ast.walk(b))
 
 
 def _drop_noops(body):
@@ -802,8 +928,10 @@ def canonicalise_locals(fn, path):
     resolving inside the routine) in the order of their first binding are renamed, simultaneously, to the canonical list
     of `CANON_LOCALS` — if and only if the two lists have the same length, and no canonical name is used in the current
     source for anything else (a parameter, a global, a builtin …: the renaming would capture it).  Otherwise the routine
-    is extracted as it stands (and its obligation fails, as it should).  The renaming is a bijection between local names,
-    so the renamed function is alpha-equivalent to the current one; line numbers are kept.  `pass` statements and
+    is extracted as it stands (and its obligation fails, as it should).  Loop variables that every loop re-binds count as one
+    variable per loop (`_local_webs`), so the canonical list may name the same `i` several times; variables are given the
+    same canonical name only if all of them are such loop variables and their loops do not contain each other.  The renamed
+    function is alpha-equivalent to the current one; line numbers are kept.  `pass` statements and
     bare-string statements (docstrings, string "comments") are dropped in every block first (`_drop_noops`), as for the
     source pins.  -> FunctionDef (a copy)"""
     key = '%s:%s' % (rel(path), fn.name)
@@ -811,16 +939,24 @@ def canonicalise_locals(fn, path):
     try:
         fn2 = copy.deepcopy(fn)
         fn2.body = _drop_noops(fn2.body)
-        cur = _pin_renameable(fn2)
+        webs = _local_webs(fn2)
     except Exception:  # noqa
         return fn
+    cur = None if webs is None else [w.name for w in webs]
     _CANON_SEEN[key] = cur
     canon = CANON_LOCALS.get(key)
     if canon is None or cur is None or len(cur) != len(canon) or cur == canon:
         return fn2
     if set(canon) & (_names_used(fn2) - set(cur)):
         return fn2
-    _rename_locals(fn2, dict(zip(cur, canon)))
+    # variables that get the same canonical name must be loop variables of loops that do not contain each other
+    by_new = {}
+    for w, nn in zip(webs, canon):
+        by_new.setdefault(nn, []).append(w)
+    for ws in by_new.values():
+        if len(ws) > 1 and (any(w.loop is None for w in ws) or any(_nested_fors(a.loop, b.loop) for k_, a in enumerate(ws) for b in ws[k_ + 1:])):
+            return fn2
+    _rename_webs(webs, canon)
     return fn2
 
 
@@ -866,21 +1002,21 @@ def _pure_kw(node):
 def normalise_body(fn):
     """the text a source pin compares (used for the generated pin and for the reference alike): a deep copy of the function in
     which (1) docstrings of the function and of nested functions, other bare-string statements and `pass` statements are dropped
-    (a block left empty keeps one `pass`), (2) the renameable local names (`_pin_renameable`) are replaced by v0, v1, … in the
-    order of their first binding, (3) the keyword arguments of a call are sorted by name when all of them have pure values
+    (a block left empty keeps one `pass`), (2) the renameable local variables (`_local_webs`: names, with loop variables that
+    every loop re-binds counted once per loop) are replaced by v0, v1, … in the order of their first binding, (3) the keyword arguments of a call are sorted by name when all of them have pure values
     (`_pure_kw`), (4) every statement is printed by `ast.unparse` (comments, blank lines, redundant parentheses,
     spacing, quoting style and line breaks do not survive).  Statement order, parameters, global names, attribute names,
     keyword-argument names, imports and literals are kept as they are.  -> list of lines"""
     import copy
     fn = copy.deepcopy(fn)
     fn.body = _drop_noops(fn.body)
-    names = _pin_renameable(fn)
-    if names:
-        used = {nd.id for nd in ast.walk(fn) if isinstance(nd, ast.Name)} | {nd.arg for nd in ast.walk(fn) if isinstance(nd, ast.arg)}
+    webs = _local_webs(fn)
+    if webs:
+        used = _names_used(fn)
         prefix = 'v'
-        while any(re.match(r'^%s\d+$' % re.escape(prefix), u) for u in used - set(names)):
+        while any(re.match(r'^%s\d+$' % re.escape(prefix), u) for u in used - {w.name for w in webs}):
             prefix = '_' + prefix
-        _rename_locals(fn, {nm_: '%s%d' % (prefix, k_) for k_, nm_ in enumerate(names)})
+        _rename_webs(webs, ['%s%d' % (prefix, k_) for k_ in range(len(webs))])
     for nd in ast.walk(fn):
         # keyword arguments are put in alphabetical order when every one of them is named (no `**kw`) and has a pure value
         if isinstance(nd, ast.Call) and len(nd.keywords) > 1 and all(k_.arg is not None and _pure_kw(k_.value) for k_ in nd.keywords):
@@ -961,14 +1097,53 @@ PINNED = {
               ('bct/utils/miscellaneous_utilities.py', 'get_rng')],
     'nbs': [('bct/nbs.py', 'nbs_bct'), ('bct/utils/miscellaneous_utilities.py', 'get_rng')],
     'synth': [('bct/algorithms/reference.py', 'makerandCIJdegreesfixed'), ('bct/algorithms/reference.py', 'makeringlatticeCIJ'),
-              ('bct/utils/miscellaneous_utilities.py', 'get_rng')],
+              ('bct/utils/miscellaneous_utilities.py', 'get_rng'),
+              ('bct/algorithms/reference.py', 'makerandCIJ_dir'), ('bct/algorithms/reference.py', 'makerandCIJ_und'),
+              ('bct/algorithms/reference.py', 'maketoeplitzCIJ'), ('bct/algorithms/reference.py', 'makeevenCIJ'),
+              ('bct/algorithms/reference.py', 'makefractalCIJ')],
+    # families that consist of source pins only (no interpreted part yet)
+    'pinrew': [('bct/algorithms/reference.py', x) for x in (
+        'randmio_und', 'randmio_dir', 'randmio_und_connected', 'randmio_dir_connected', 'latmio_und', 'latmio_dir', 'latmio_und_connected',
+        'latmio_dir_connected', 'randomizer_bin_und', 'randomize_graph_partial_und')] + [('bct/utils/miscellaneous_utilities.py', 'get_rng')],
+    'pinmod': [('bct/algorithms/modularity.py', x) for x in (
+        'community_louvain', 'modularity_louvain_und_sign', 'modularity_probtune_und_sign', 'modularity_finetune_und',
+        'modularity_finetune_und_sign', 'modularity_finetune_dir', 'modularity_und_sign', 'link_communities')]
+        + [('bct/utils/miscellaneous_utilities.py', 'get_rng')],
+    'pinpart': [('bct/algorithms/modularity.py', 'partition_distance'), ('bct/algorithms/modularity.py', 'ci2ls'),
+                ('bct/algorithms/modularity.py', 'ls2ci'),
+                ('bct/algorithms/centrality.py', 'participation_coef'), ('bct/algorithms/centrality.py', 'participation_coef_sign'),
+                ('bct/algorithms/centrality.py', 'diversity_coef_sign'), ('bct/algorithms/centrality.py', 'gateway_coef_sign'),
+                ('bct/algorithms/centrality.py', 'module_degree_zscore'), ('bct/algorithms/clustering.py', 'agreement'),
+                ('bct/algorithms/clustering.py', 'agreement_weighted'), ('bct/algorithms/clustering.py', 'consensus_und'),
+                ('bct/utils/miscellaneous_utilities.py', 'dummyvar')],
+    'pindist': [('bct/algorithms/distance.py', 'navigation_wu'), ('bct/algorithms/efficiency.py', 'efficiency_wei'),
+                ('bct/algorithms/efficiency.py', 'rout_efficiency')],
+    'pinmeas': [('bct/algorithms/clustering.py', 'clustering_coef_wu_sign'), ('bct/algorithms/core.py', 'assortativity_bin'),
+                ('bct/algorithms/core.py', 'assortativity_wei'), ('bct/algorithms/physical_connectivity.py', 'density_dir'),
+                ('bct/algorithms/physical_connectivity.py', 'density_und'), ('bct/algorithms/similarity.py', 'edge_nei_overlap_bd'),
+                ('bct/algorithms/similarity.py', 'edge_nei_overlap_bu'), ('bct/algorithms/centrality.py', 'flow_coef_bd'),
+                ('bct/algorithms/similarity.py', 'matching_ind'), ('bct/algorithms/similarity.py', 'matching_ind_und'),
+                ('bct/algorithms/core.py', 'rich_club_bd'), ('bct/algorithms/core.py', 'rich_club_bu'), ('bct/algorithms/core.py', 'rich_club_wd'),
+                ('bct/algorithms/core.py', 'rich_club_wu'), ('bct/algorithms/degree.py', 'strengths_dir'),
+                ('bct/algorithms/degree.py', 'strengths_und_sign'), ('bct/algorithms/degree.py', 'jdegree')],
+    'pinwalk': [('bct/algorithms/centrality.py', 'eigenvector_centrality_und'), ('bct/algorithms/centrality.py', 'subgraph_centrality'),
+                ('bct/algorithms/distance.py', 'findwalks'), ('bct/algorithms/distance.py', 'findpaths'),
+                ('bct/algorithms/efficiency.py', 'diffusion_efficiency')],
+    'pingen': [('bct/algorithms/core.py', 'core_periphery_dir'), ('bct/algorithms/generative.py', 'generative_model'),
+               ('bct/algorithms/generative.py', 'evaluate_generative_model'), ('bct/algorithms/physical_connectivity.py', 'rentian_scaling'),
+               ('bct/utils/miscellaneous_utilities.py', 'get_rng')],
+    'pinutil': [('bct/utils/other.py', 'autofix')],
 }
 
+# the Lean file that holds the references of a family (`Bct.CoreIR.Pin.ref_<routine>`)
+PIN_REF_FILE = {'modq': 'CoreIRPin', 'nullm': 'CoreIRPin', 'nbs': 'CoreIRPin', 'synth': 'CoreIRPin'}
+PIN_REF_DEFAULT = 'CoreIRPinMore'
 
-def pin_reference_text(families=None):
-    """Lean text of the reference pins for the current source (to refresh `Model/CoreIRPin.lean` by hand after a reviewed change)"""
+
+def pin_reference_text(families=None, skip=()):
+    """Lean text of the reference pins for the current source (to refresh `Model/CoreIRPin*.lean` after a reviewed change)"""
     out = []
-    seen = set()
+    seen = set(skip)
     for fam in (families or sorted(PINNED)):
         for relf, name in PINNED[fam]:
             if (relf, name) in seen:
@@ -977,6 +1152,25 @@ def pin_reference_text(families=None):
             r = pin_routine(os.path.join(common.REPO, relf), name)
             out.append(lean_pin_value(r, 'ref_%s' % name.lstrip('_')).replace('Bct.CoreIR.Pin.SrcPin', 'SrcPin'))
     return '\n'.join(out)
+
+
+def write_pin_references(lean_dir):
+    """refresh the reference sections of `Model/CoreIRPin.lean` (everything after the marker line) and rewrite
+    `Model/CoreIRPinMore.lean` from the current source — to be run on a reviewed revision of /repo only"""
+    base_fams = sorted(f_ for f_ in PINNED if PIN_REF_FILE.get(f_, PIN_REF_DEFAULT) == 'CoreIRPin')
+    more_fams = sorted(f_ for f_ in PINNED if PIN_REF_FILE.get(f_, PIN_REF_DEFAULT) != 'CoreIRPin')
+    p0 = os.path.join(lean_dir, 'BctVerif', 'Model', 'CoreIRPin.lean')
+    t0 = open(p0).read()
+    marker = '/-! ## references (from /repo at the time the pins were made) -/\n'
+    head = t0[:t0.index(marker) + len(marker)]
+    open(p0, 'w').write(head + '\n' + pin_reference_text(base_fams) + '\n\nend Bct.CoreIR.Pin\n')
+    base = {(relf, name) for f_ in base_fams for relf, name in PINNED[f_]}
+    p1 = os.path.join(lean_dir, 'BctVerif', 'Model', 'CoreIRPinMore.lean')
+    open(p1, 'w').write('import BctVerif.Model.CoreIRPin\n/-!\n# Source pins, second file: references for the families that consist of pins only\n\n'
+                        'Same format and same normalisation as `Model/CoreIRPin.lean` (generated by `cores.write_pin_references` from a reviewed\n'
+                        'revision of /repo).  A pin carries no meaning; it makes every change of the body fail an obligation.\n\nCore Lean only.\n-/\n'
+                        'namespace Bct.CoreIR.Pin\n\n' + pin_reference_text(more_fams, skip=base) + '\n\nend Bct.CoreIR.Pin\n')
+    return [p0, p1]
 
 
 # ====================================================================== family 'floyd'
@@ -5300,7 +5494,9 @@ def family_walks():
 
 # ====================================================================== families of pinned routines
 
-PIN_MODULES = {'modq': 'CoresMod', 'nullm': 'CoresNull', 'nbs': 'CoresNbs', 'synth': 'CoresSynth'}
+PIN_MODULES = {'modq': 'CoresMod', 'nullm': 'CoresNull', 'nbs': 'CoresNbs', 'synth': 'CoresSynth', 'pinrew': 'CoresPinRewire', 'pinmod': 'CoresPinMod',
+               'pinpart': 'CoresPinPart', 'pindist': 'CoresPinDist', 'pinmeas': 'CoresPinMeas', 'pinwalk': 'CoresPinWalk', 'pingen': 'CoresPinGen',
+               'pinutil': 'CoresPinUtil'}
 
 
 def family_pinned(fam, extra=None):
@@ -5309,7 +5505,7 @@ def family_pinned(fam, extra=None):
     rs = []
     for relf, name in PINNED[fam]:
         rs.append(pin_routine(os.path.join(common.REPO, relf), name))
-    imports = ['import BctVerif.Model.CoreIRPin']
+    imports = ['import BctVerif.Model.%s' % PIN_REF_FILE.get(fam, PIN_REF_DEFAULT)]
     body = []
     problems = []
     routines = {}
@@ -5606,8 +5802,363 @@ def family_modq():
     return family_pinned('modq', modq_extra)
 
 
+NULL_FIELDS = ['name', 'params', 'defaults', 'rng', 'rngCallee', 'rngArg', 'guard', 'cpT', 'cpOf', 'cpType', 'nT', 'nOf', 'fdM', 'fdV', 'ap', 'an', 'szOf',
+               'nL', 'nR', 'nC', 'wr', 'eff', 'callee', 'cArg1', 'cArg2', 'cKw', 'cSeed', 'apr', 'anr', 'eApr', 'eAp', 'eAnr', 'eAn', 'w0', 'z1', 'z2',
+               'sVar', 's1', 's2', 'sTest', 'sEq', 'acur', 'pa', 'arcur', 'par', 'acurE', 'na', 'arcurE', 'nar', 'strs', 'wv', 'wvS', 'wvW', 'wvA',
+               'wvTriu', 'iv', 'jv', 'ijA', 'ijTriu', 'lij', 'lijA', 'lijTriu', 'p', 'po1', 'po2', 'fq', 'fqLit', 'oind0', 'as0P', 'as0L', 'w0a',
+               'w0aL', 'w0aO', 'w0aS', 'w0aW', 'wsize', 'wsOf', 'period', 'perOne', 'perOf', 'perTy', 'lq', 'lqA', 'lqB', 'lqC', 'lqTy', 'm', 'mIn',
+               'oind', 'asP', 'asL', 'rr', 'rRng', 'rN', 'rM', 'rP', 'qv', 'r1', 'enumOf', 'o', 'oOf', 'oIdx', 'w0b', 'w0bL', 'w0bO', 'w0bS', 'w0bW',
+               'w0bR', 'book', 'bigO', 'bigOOf', 'bigOIdx', 'dels', 'symm', 'tailCount']
+NULL_NUM = {'fdV', 'nC', 's1', 's2', 'sEq', 'fqLit', 'perOne', 'lqB', 'tailCount'}
+NULL_BOOL = {'wvTriu', 'ijTriu', 'lijTriu'}
+NULL_MASK = {'ap', 'an', 'apr', 'anr'}
+NULL_LIST = {'strs', 'book', 'dels'}
+NULL_OPT = {'guard', 'symm'}
+
+
+def null_default():
+    md = '{ t := "?", m := "?", gt := true, lit := 99 }'
+    return {k: ('99' if k in NULL_NUM else 'false' if k in NULL_BOOL else md if k in NULL_MASK else '[]' if k in NULL_LIST
+                else 'none' if k in NULL_OPT else q('?')) for k in NULL_FIELDS}
+
+
+def extract_null(fn, path):
+    """null_model_und_sign / null_model_dir_sign: the whole body except the correlations and the `return` at the end, matched
+    positionally (Model/CoreIRNull.lean: NullIR)"""
+    X = _TX
+    r = Routine(fn.name, path)
+    r.line = fn.lineno
+    a = fn.args
+    if a.vararg or a.kwarg or a.kwonlyargs or getattr(a, 'posonlyargs', []):
+        r.bad(fn, 'unexpected parameter kinds')
+    f = null_default()
+    f['name'] = q(fn.name)
+    f['params'] = lst(q(x.arg) for x in a.args)
+    f['defaults'] = lean_defaults(defaults_of(fn))
+    r.fields = f
+    body = body_wo_doc(fn)
+    r.parts = {'body': lines_of(body)}
+    r.counts = {'body': len(body)}
+
+    def intlit(node, what):
+        z = const_int(node)
+        if z is None:
+            raise Unrec(node, 'expected an integer literal as %s, found %s' % (what, src_of(node)))
+        return lint(z)
+
+    def mask(st, what):
+        t, v = X.assign(st, what)
+        if not (isinstance(v, ast.Compare) and len(v.ops) == 1 and isinstance(v.ops[0], (ast.Gt, ast.Lt))):
+            raise Unrec(st, 'expected `%s`' % what)
+        return '{ t := %s, m := %s, gt := %s, lit := %s }' % (X.nm(t, 'target'), X.nm(v.left, 'matrix'),
+                                                               'true' if isinstance(v.ops[0], ast.Gt) else 'false', intlit(v.comparators[0], 'bound'))
+
+    def name_assign(st, what):
+        t, v = X.assign(st, what)
+        return X.nm(t, 'target'), X.nm(v, 'source')
+
+    def triu_or_name(node, what):
+        """np.triu(A) -> (A, true);  A -> (A, false)"""
+        c = np_call(node, 'triu', 1)
+        if c and not node.keywords:
+            return X.nm(c[0], 'mask'), 'true'
+        return X.nm(node, 'mask'), 'false'
+
+    def flat_of(node, what):
+        if isinstance(node, ast.Attribute) and node.attr == 'flat':
+            return node.value
+        raise Unrec(node, 'expected `%s`' % what)
+
+    def sub(node, what):
+        """A[B] -> (A, B)"""
+        if isinstance(node, ast.Subscript):
+            return node.value, node.slice
+        raise Unrec(node, 'expected `%s`' % what)
+
+    def argsort(st, what):
+        t, v = X.assign(st, what)
+        arr, ix = sub(X.np1(v, 'argsort', what)[0], what)
+        return X.nm(t, 'target'), X.nm(flat_of(arr, what), 'matrix'), X.nm(ix, 'index array')
+
+    def idx2(node, what):
+        """idx[o] -> (idx, o)"""
+        a_, b_ = sub(node, what)
+        return X.nm(a_, 'index array'), X.nm(b_, 'position')
+
+    def bstmt(st):
+        what = 'a bookkeeping statement (`f = 1 - Wv[r] / S[i[o]]`, `P[i[o], :] *= f`, `P[:, i[o]] *= f`, `S[i[o]] -= Wv[r]`)'
+        if isinstance(st, ast.Assign) and len(st.targets) == 1 and isinstance(st.targets[0], ast.Name):
+            l, rt = X.binop(st.value, ast.Sub, what)
+            nu, de = X.binop(rt, ast.Div, what)
+            (wv_, r_), (sv, ix) = sub(nu, what), sub(de, what)
+            idx, o = idx2(ix, what)
+            return '.setF %s %s %s %s %s %s %s' % (q(st.targets[0].id), X.nat(l, 'literal'), X.nm(wv_, 'weights'), X.nm(r_, 'position'),
+                                                   X.nm(sv, 'strengths'), idx, o)
+        if isinstance(st, ast.AugAssign) and isinstance(st.target, ast.Subscript):
+            tv, ts = st.target.value, st.target.slice
+            if isinstance(st.op, ast.Mult) and isinstance(ts, ast.Tuple) and len(ts.elts) == 2:
+                if full_slice(ts.elts[1]):
+                    idx, o = idx2(ts.elts[0], what)
+                    return '.scaleRow %s %s %s %s' % (X.nm(tv, 'matrix'), idx, o, X.nm(st.value, 'factor'))
+                if full_slice(ts.elts[0]):
+                    idx, o = idx2(ts.elts[1], what)
+                    return '.scaleCol %s %s %s %s' % (X.nm(tv, 'matrix'), idx, o, X.nm(st.value, 'factor'))
+            if isinstance(st.op, ast.Sub):
+                idx, o = idx2(ts, what)
+                wv_, r_ = sub(st.value, what)
+                return '.decr %s %s %s %s %s' % (X.nm(tv, 'strengths'), idx, o, X.nm(wv_, 'weights'), X.nm(r_, 'position'))
+        raise Unrec(st, 'expected %s, found %s' % (what, src_of(st)))
+    try:
+        k = 0
+
+        def nxt(what):
+            nonlocal k
+            if k >= len(body):
+                raise Unrec(fn, 'statement missing: expected `%s`' % what)
+            k += 1
+            return body[k - 1]
+        w = 'rng = get_rng(seed)'
+        t, v = X.assign(nxt(w), w)
+        if not (isinstance(v, ast.Call) and isinstance(v.func, ast.Name) and len(v.args) == 1 and not v.keywords):
+            raise Unrec(v, 'expected `%s`' % w)
+        f['rng'], f['rngCallee'], f['rngArg'] = X.nm(t, 'target'), q(v.func.id), X.nm(v.args[0], 'argument')
+        if isinstance(body[k], ast.If):
+            w = 'if not np.array_equal(W, W.T): raise BCTParamError(…)'
+            st = nxt(w)
+            c = np_call(st.test.operand, 'array_equal', 2) if isinstance(st.test, ast.UnaryOp) and isinstance(st.test.op, ast.Not) else None
+            if not (c and not st.test.operand.keywords and not st.orelse and len(st.body) == 1 and isinstance(st.body[0], ast.Raise)
+                    and st.body[0].cause is None and isinstance(st.body[0].exc, ast.Call) and isinstance(st.body[0].exc.func, ast.Name)
+                    and not st.body[0].exc.keywords and all(isinstance(x, ast.Constant) and isinstance(x.value, str) for x in st.body[0].exc.args)
+                    and isinstance(c[1], ast.Attribute) and c[1].attr == 'T'):
+                raise Unrec(st, 'expected `%s`' % w)
+            f['guard'] = 'some (%s, %s, %s)' % (X.nm(c[0], 'matrix'), X.nm(c[1].value, 'transposed matrix'), q(st.body[0].exc.func.id))
+        w = 'W = W.astype(float)'
+        t, v = X.assign(nxt(w), w)
+        if not (isinstance(v, ast.Call) and isinstance(v.func, ast.Attribute) and v.func.attr == 'astype' and len(v.args) == 1 and not v.keywords):
+            raise Unrec(v, 'expected `%s`' % w)
+        f['cpT'], f['cpOf'], f['cpType'] = X.nm(t, 'target'), X.nm(v.func.value, 'matrix'), X.nm(v.args[0], 'type')
+        w = 'n = len(W)'
+        t, v = X.assign(nxt(w), w)
+        f['nT'], f['nOf'] = X.nm(t, 'target'), X.nm(X.len1(v, w), 'matrix')
+        w = 'np.fill_diagonal(W, 0)'
+        st = nxt(w)
+        c = np_call(st.value, 'fill_diagonal', 2) if isinstance(st, ast.Expr) else None
+        if not c or st.value.keywords:
+            raise Unrec(st, 'expected `%s`' % w)
+        f['fdM'], f['fdV'] = X.nm(c[0], 'matrix'), intlit(c[1], 'value')
+        f['ap'] = mask(nxt('Ap = (W > 0)'), 'Ap = (W > 0)')
+        f['an'] = mask(nxt('An = (W < 0)'), 'An = (W < 0)')
+        w = 'if np.size(np.where(Ap.flat)) < (n * (n - 1)): … else: …'
+        st = nxt(w)
+        if not (isinstance(st, ast.If) and isinstance(st.test, ast.Compare) and len(st.test.ops) == 1 and isinstance(st.test.ops[0], ast.Lt)
+                and len(st.body) == 3 and len(st.orelse) == 2):
+            raise Unrec(st, 'expected `%s` with three and two statements' % w)
+        wh = X.np1(X.np1(st.test.left, 'size', w)[0], 'where', w)[0]
+        f['szOf'] = X.nm(flat_of(wh, w), 'mask')
+        nl, rest = X.binop(st.test.comparators[0], ast.Mult, w)
+        nr, nc = X.binop(rest, ast.Sub, w)
+        f['nL'], f['nR'], f['nC'] = X.nm(nl, 'size'), X.nm(nr, 'size'), X.nat(nc, 'literal')
+        w = 'W_r, eff = randmio_und_signed(W, bin_swaps, seed=rng)'
+        t, v = X.assign(st.body[0], w)
+        if not (isinstance(t, ast.Tuple) and len(t.elts) == 2 and isinstance(v, ast.Call) and isinstance(v.func, ast.Name) and len(v.args) == 2
+                and len(v.keywords) == 1 and v.keywords[0].arg is not None):
+            raise Unrec(st.body[0], 'expected `%s`' % w)
+        f['wr'], f['eff'], f['callee'] = X.nm(t.elts[0], 'target'), X.nm(t.elts[1], 'target'), q(v.func.id)
+        f['cArg1'], f['cArg2'], f['cKw'], f['cSeed'] = X.nm(v.args[0], 'argument'), X.nm(v.args[1], 'argument'), q(v.keywords[0].arg), X.nm(v.keywords[0].value, 'seed')
+        f['apr'] = mask(st.body[1], 'Ap_r = W_r > 0')
+        f['anr'] = mask(st.body[2], 'An_r = W_r < 0')
+        f['eApr'], f['eAp'] = name_assign(st.orelse[0], 'Ap_r = Ap')
+        f['eAnr'], f['eAn'] = name_assign(st.orelse[1], 'An_r = An')
+        w = 'W0 = np.zeros((n, n))'
+        t, v = X.assign(nxt(w), w)
+        z = X.np1(v, 'zeros', w)[0]
+        if not (isinstance(z, ast.Tuple) and len(z.elts) == 2):
+            raise Unrec(v, 'expected `%s`' % w)
+        f['w0'], f['z1'], f['z2'] = X.nm(t, 'target'), X.nm(z.elts[0], 'size'), X.nm(z.elts[1], 'size')
+        w = 'for s in (1, -1):'
+        lp = nxt(w)
+        if not (isinstance(lp, ast.For) and not lp.orelse and isinstance(lp.iter, ast.Tuple) and len(lp.iter.elts) == 2):
+            raise Unrec(lp, 'expected `%s`' % w)
+        f['sVar'], f['s1'], f['s2'] = X.nm(lp.target, 'loop variable'), intlit(lp.iter.elts[0], 'sign'), intlit(lp.iter.elts[1], 'sign')
+        lb = list(lp.body)
+        w = 'if s == 1: Acur = Ap; A_rcur = Ap_r else: Acur = An; A_rcur = An_r'
+        st = lb.pop(0)
+        if not (isinstance(st, ast.If) and isinstance(st.test, ast.Compare) and len(st.test.ops) == 1 and isinstance(st.test.ops[0], ast.Eq)
+                and len(st.body) == 2 and len(st.orelse) == 2):
+            raise Unrec(st, 'expected `%s`' % w)
+        f['sTest'], f['sEq'] = X.nm(st.test.left, 'tested name'), intlit(st.test.comparators[0], 'sign')
+        f['acur'], f['pa'] = name_assign(st.body[0], 'Acur = Ap')
+        f['arcur'], f['par'] = name_assign(st.body[1], 'A_rcur = Ap_r')
+        f['acurE'], f['na'] = name_assign(st.orelse[0], 'Acur = An')
+        f['arcurE'], f['nar'] = name_assign(st.orelse[1], 'A_rcur = An_r')
+        strs = []
+        while lb and isinstance(lb[0], ast.Assign) and np_call(lb[0].value, 'sum', 1):
+            w = 'S = np.sum(s * W * Acur, axis=0)'
+            t, v = X.assign(lb.pop(0), w)
+            e, kw_ = X.np1(v, 'sum', w, ('axis',))
+            l2, a_ = X.binop(e, ast.Mult, w)
+            s_, w_ = X.binop(l2, ast.Mult, w)
+            strs.append('{ t := %s, s := %s, w := %s, a := %s, axis := %s }' % (X.nm(t, 'target'), X.nm(s_, 'sign'), X.nm(w_, 'matrix'),
+                                                                               X.nm(a_, 'mask'), X.nat(kw_['axis'], 'axis')))
+        f['strs'] = lst(strs)
+        if len(lb) != 5:
+            raise Unrec(lp, 'expected five statements after the strength vectors (`Wv`, `i, j`, `Lij`, `P`, `if wei_freq == 0:`), found %d' % len(lb))
+        w = 'Wv = np.sort(s * W[np.where(np.triu(Acur))])'
+        t, v = X.assign(lb[0], w)
+        s_, sel = X.binop(X.np1(v, 'sort', w)[0], ast.Mult, w)
+        wm, ix = sub(sel, w)
+        c = np_call(ix, 'where', 1)
+        if c and not ix.keywords:
+            a_, tr = triu_or_name(c[0], w)
+            if tr != 'true':
+                raise Unrec(ix, 'expected `%s`' % w)
+        else:
+            a_, tr = X.nm(ix, 'mask'), 'false'
+        f['wv'], f['wvS'], f['wvW'], f['wvA'], f['wvTriu'] = X.nm(t, 'target'), X.nm(s_, 'sign'), X.nm(wm, 'matrix'), a_, tr
+        w = 'i, j = np.where(np.triu(A_rcur))'
+        t, v = X.assign(lb[1], w)
+        if not (isinstance(t, ast.Tuple) and len(t.elts) == 2):
+            raise Unrec(lb[1], 'expected `%s`' % w)
+        f['ijA'], f['ijTriu'] = triu_or_name(X.np1(v, 'where', w)[0], w)
+        f['iv'], f['jv'] = X.nm(t.elts[0], 'row indices'), X.nm(t.elts[1], 'column indices')
+        w = 'Lij, = np.where(np.triu(A_rcur).flat)'
+        t, v = X.assign(lb[2], w)
+        if not (isinstance(t, ast.Tuple) and len(t.elts) == 1):
+            raise Unrec(lb[2], 'expected `%s`' % w)
+        f['lijA'], f['lijTriu'] = triu_or_name(flat_of(X.np1(v, 'where', w)[0], w), w)
+        f['lij'] = X.nm(t.elts[0], 'flat indices')
+        w = 'P = np.outer(S, S)'
+        t, v = X.assign(lb[3], w)
+        c = np_call(v, 'outer', 2)
+        if not c or v.keywords:
+            raise Unrec(v, 'expected `%s`' % w)
+        f['p'], f['po1'], f['po2'] = X.nm(t, 'target'), X.nm(c[0], 'strengths'), X.nm(c[1], 'strengths')
+        w = 'if wei_freq == 0: … else: …'
+        st = lb[4]
+        if not (isinstance(st, ast.If) and isinstance(st.test, ast.Compare) and len(st.test.ops) == 1 and isinstance(st.test.ops[0], ast.Eq)
+                and len(st.body) == 2 and len(st.orelse) == 4):
+            raise Unrec(st, 'expected `%s` with two and four statements' % w)
+        f['fq'], f['fqLit'] = X.nm(st.test.left, 'tested name'), X.nat(st.test.comparators[0], 'literal')
+        f['oind0'], f['as0P'], f['as0L'] = argsort(st.body[0], 'Oind = np.argsort(P.flat[Lij])')
+        w = 'W0.flat[Lij[Oind]] = s * Wv'
+        t, v = X.assign(st.body[1], w)
+        arr, ix = sub(t, w)
+        l_, o_ = idx2(ix, w)
+        s_, w_ = X.binop(v, ast.Mult, w)
+        f['w0a'], f['w0aL'], f['w0aO'], f['w0aS'], f['w0aW'] = X.nm(flat_of(arr, w), 'matrix'), l_, o_, X.nm(s_, 'sign'), X.nm(w_, 'weights')
+        e0, e1, e2, e3 = st.orelse
+        w = 'wsize = np.size(Wv)'
+        t, v = X.assign(e0, w)
+        f['wsize'], f['wsOf'] = X.nm(t, 'target'), X.nm(X.np1(v, 'size', w)[0], 'weights')
+        w = 'wei_period = np.round(1 / wei_freq).astype(int)'
+        t, v = X.assign(e1, w)
+        if not (isinstance(v, ast.Call) and isinstance(v.func, ast.Attribute) and v.func.attr == 'astype' and len(v.args) == 1 and not v.keywords):
+            raise Unrec(v, 'expected `%s`' % w)
+        nu, de = X.binop(X.np1(v.func.value, 'round', w)[0], ast.Div, w)
+        f['period'], f['perOne'], f['perOf'], f['perTy'] = X.nm(t, 'target'), X.nat(nu, 'literal'), X.nm(de, 'frequency'), X.nm(v.args[0], 'type')
+        w = 'lq = np.arange(wsize, 0, -wei_period, dtype=int)'
+        t, v = X.assign(e2, w)
+        c = np_call(v, 'arange', 3)
+        if not (c and len(v.keywords) == 1 and v.keywords[0].arg == 'dtype' and isinstance(c[2], ast.UnaryOp) and isinstance(c[2].op, ast.USub)):
+            raise Unrec(v, 'expected `%s`' % w)
+        f['lq'], f['lqA'], f['lqB'], f['lqC'], f['lqTy'] = X.nm(t, 'target'), X.nm(c[0], 'start'), X.nat(c[1], 'stop'), X.nm(c[2].operand, 'step'), X.nm(v.keywords[0].value, 'dtype')
+        if not (isinstance(e3, ast.For) and not e3.orelse and len(e3.body) == 8):
+            raise Unrec(e3, 'expected `for m in lq:` with eight statements')
+        f['m'], f['mIn'] = X.nm(e3.target, 'loop variable'), X.nm(e3.iter, 'iterable')
+        f['oind'], f['asP'], f['asL'] = argsort(e3.body[0], 'Oind = np.argsort(P.flat[Lij])')
+        w = 'R = rng.permutation(m)[:np.min((m, wei_period))]'
+        t, v = X.assign(e3.body[1], w)
+        call, sl = sub(v, w)
+        if not (isinstance(call, ast.Call) and isinstance(call.func, ast.Attribute) and call.func.attr == 'permutation' and len(call.args) == 1
+                and not call.keywords and isinstance(sl, ast.Slice) and sl.lower is None and sl.step is None and sl.upper is not None):
+            raise Unrec(v, 'expected `%s`' % w)
+        mn = X.np1(sl.upper, 'min', w)[0]
+        if not (isinstance(mn, ast.Tuple) and len(mn.elts) == 2):
+            raise Unrec(v, 'expected `%s`' % w)
+        f['rr'], f['rRng'], f['rN'] = X.nm(t, 'target'), X.nm(call.func.value, 'generator'), X.nm(call.args[0], 'size')
+        f['rM'], f['rP'] = X.nm(mn.elts[0], 'size'), X.nm(mn.elts[1], 'period')
+        il = e3.body[2]
+        w = 'for q, r in enumerate(R):'
+        if not (isinstance(il, ast.For) and not il.orelse and isinstance(il.target, ast.Tuple) and len(il.target.elts) == 2
+                and isinstance(il.iter, ast.Call) and isinstance(il.iter.func, ast.Name) and il.iter.func.id == 'enumerate' and len(il.iter.args) == 1
+                and not il.iter.keywords and len(il.body) >= 2):
+            raise Unrec(il, 'expected `%s`' % w)
+        f['qv'], f['r1'], f['enumOf'] = X.nm(il.target.elts[0], 'counter'), X.nm(il.target.elts[1], 'position'), X.nm(il.iter.args[0], 'iterable')
+        w = 'o = Oind[r]'
+        t, v = X.assign(il.body[0], w)
+        a_, b_ = sub(v, w)
+        f['o'], f['oOf'], f['oIdx'] = X.nm(t, 'target'), X.nm(a_, 'order'), X.nm(b_, 'position')
+        w = 'W0.flat[Lij[o]] = s * Wv[r]'
+        t, v = X.assign(il.body[1], w)
+        arr, ix = sub(t, w)
+        l_, o_ = idx2(ix, w)
+        s_, wr_ = X.binop(v, ast.Mult, w)
+        ww, rr_ = sub(wr_, w)
+        f['w0b'], f['w0bL'], f['w0bO'], f['w0bS'], f['w0bW'], f['w0bR'] = X.nm(flat_of(arr, w), 'matrix'), l_, o_, X.nm(s_, 'sign'), X.nm(ww, 'weights'), X.nm(rr_, 'position')
+        f['book'] = lst(bstmt(x) for x in il.body[2:])
+        w = 'O = Oind[R]'
+        t, v = X.assign(e3.body[3], w)
+        a_, b_ = sub(v, w)
+        f['bigO'], f['bigOOf'], f['bigOIdx'] = X.nm(t, 'target'), X.nm(a_, 'order'), X.nm(b_, 'positions')
+        dels = []
+        for st2 in e3.body[4:]:
+            w = 'Lij = np.delete(Lij, O)'
+            t, v = X.assign(st2, w)
+            c = np_call(v, 'delete', 2)
+            if not c or v.keywords:
+                raise Unrec(st2, 'expected `%s`' % w)
+            dels.append('(%s, %s, %s)' % (X.nm(t, 'target'), X.nm(c[0], 'array'), X.nm(c[1], 'positions')))
+        f['dels'] = lst(dels)
+        if (k < len(body) and isinstance(body[k], ast.Assign) and isinstance(body[k].value, ast.BinOp) and isinstance(body[k].value.op, ast.Add)
+                and isinstance(body[k].value.right, ast.Attribute) and body[k].value.right.attr == 'T'):
+            w = 'W0 = W0 + W0.T'
+            t, v = X.assign(nxt(w), w)
+            f['symm'] = 'some (%s, %s, %s)' % (X.nm(t, 'target'), X.nm(v.left, 'matrix'), X.nm(v.right.value, 'transposed matrix'))
+        f['tailCount'] = '%d' % (len(body) - k)
+        if not (body and isinstance(body[-1], ast.Return)):
+            raise Unrec(fn, 'expected a final `return`')
+    except Unrec as e:
+        r.bad(e.node if hasattr(e.node, 'lineno') else fn, e.msg)
+    return r
+
+
+def nullm_extra():
+    path = os.path.join(common.REPO, 'bct', 'algorithms', 'reference.py')
+    fns, err = parse_functions(path)
+    out, problems, routines = [], [], {}
+    relb = os.path.basename(path)
+    for name, ref, link, und in (('null_model_und_sign', 'refUnd', 'link_null_und', 'true'), ('null_model_dir_sign', 'refDir', 'link_null_dir', 'false')):
+        if name not in fns:
+            r = Routine(name, path); r.problems.append('%s: %s' % (name, err or 'function not found in ' + path))
+            r.fields = None
+        else:
+            try:
+                r = extract_null(fns[name], path)
+                check_header(r, fns[name], fns)
+            except Exception as e:  # noqa — an extractor crash must not look like success
+                r = Routine(name, path); r.problems.append('%s: extractor raised %s: %s' % (name, type(e).__name__, e))
+                r.fields = None
+        f = r.fields or dict(null_default(), name=q(name), params='[]', defaults='[]')
+        a, b = r.parts.get('body', (r.line, r.line))
+        for p in r.problems:
+            out.append('-- NOT RECOGNISED: ' + p.replace('\n', ' '))
+        out.append('/-- `%s` (%s:%d): every statement up to the correlations, one field per name and literal -/' % (name, relb, r.line))
+        out.append('def ir_%s : Bct.CoreIR.Null.NullIR :=\n  { recognised := %s, origins := %s,\n    %s }\n'
+                   % (name, 'true' if not r.problems else 'false', lean_origins(r), ',\n    '.join('%s := %s' % (k, f[k]) for k in NULL_FIELDS)))
+        out.append('theorem %s_ok : Bct.CoreIR.Null.nullOk Bct.CoreIR.Null.%s ir_%s = true := by\n  first | decide | fail "%s_ok: the statements '
+                   'extracted from %s (%s:%d-%d) %s"\n' % (name, ref, name, name, name, relb, a, b,
+                                                          'were not all recognised by translate/cores.py' if r.problems else 'are not the expected program'))
+        out.append('theorem %s_computes {n : Nat} (W : AMat Int n) (binSwaps period : Nat) (orc : List (List Nat)) (ds : List Nat) :\n'
+                   '    Bct.CoreIR.Null.runNull ir_%s (Bct.Signed.run %s) W binSwaps (decide (period = 0)) period orc ds =\n'
+                   '      Bct.Signed.nullModel %s W binSwaps period orc ds :=\n'
+                   '  Bct.Cores.Null.%s _ %s_ok W binSwaps period orc ds\n' % (name, name, und, und, link, name))
+        problems += list(r.problems)
+        routines[name + ' (interpreted)'] = dict(getattr(r, 'counts', {}), line=r.line, recognised=not r.problems)
+    return {'imports': ['import BctVerif.Props.CoresNull'], 'lean': out, 'problems': problems, 'routines': routines}
+
+
 def family_nullm():
-    return family_pinned('nullm')
+    return family_pinned('nullm', nullm_extra)
 
 
 T2_FIELDS = ['name', 'params', 'defaults', 't', 'm1', 'm2', 'n1', 'n2', 'l1', 'l2', 'vx', 'vxOf', 'vxDdof', 'vxPtp', 'vxElse', 'vy', 'vyOf',
@@ -6431,6 +6982,13 @@ def family_synth():
     return family_pinned('synth', synth_extra)
 
 
+def _pin_only(fam):
+    def f():
+        return family_pinned(fam)
+    f.__name__ = 'family_' + fam
+    return f
+
+
 # ====================================================================== canonical local names
 #
 # The function-local names of every routine that is read, in the order of their first binding, at the reference revision
@@ -6438,66 +6996,165 @@ def family_synth():
 
 CANON_LOCALS = {
     'bct/algorithms/centrality.py:betweenness_bin': ['n', 'I', 'd', 'NPd', 'NSPd', 'NSP', 'L', 'DP', 'diam', 'DPd1'],
-    'bct/algorithms/centrality.py:betweenness_wei': ['n', 'BC', 'u', 'D', 'NP', 'S', 'P', 'Q', 'q', 'G1', 'V', 'v', 'W', 'w', 'Duw', 'DP'],
-    'bct/algorithms/centrality.py:edge_betweenness_bin': ['n', 'BC', 'EBC', 'u', 'D', 'NP', 'P', 'Q', 'q', 'Gu', 'V', 'v', 'W', 'w', 'DP', 'DPvw'],
+    'bct/algorithms/centrality.py:betweenness_wei': ['n', 'BC', 'u', 'D', 'NP', 'S', 'P', 'Q', 'q', 'G1', 'V', 'v', 'W', 'w', 'Duw', 'DP', 'w', 'v'],
+    'bct/algorithms/centrality.py:diversity_coef_sign': ['n', '_', 'm', 'entropy', 'S', 'Snm', 'i', 'pnm', 'Hpos', 'Hneg'],
+    'bct/algorithms/centrality.py:edge_betweenness_bin': ['n', 'BC', 'EBC', 'u', 'D', 'NP', 'P', 'Q', 'q', 'Gu', 'V', 'v', 'W', 'w', 'DP', 'w', 'v',
+        'DPvw'],
     'bct/algorithms/centrality.py:edge_betweenness_wei': ['n', 'BC', 'EBC', 'u', 'D', 'NP', 'S', 'P', 'Q', 'q', 'G1', 'V', 'v', 'W', 'w', 'Duw',
-        'DP', 'DPvw'],
+        'DP', 'w', 'v', 'DPvw'],
+    'bct/algorithms/centrality.py:eigenvector_centrality_und': ['n', 'vals', 'vecs', 'i'],
+    'bct/algorithms/centrality.py:flow_coef_bd': ['N', 'fc', 'total_flo', 'max_flo', 'v', 'nb', 'CIJflo', 'i', 'j', 'FC'],
+    'bct/algorithms/centrality.py:gateway_coef_sign': ['_', 'n', 'gcoef', 'nr_modules', 's', 'Gc', 'ks', 'kjs', 'cs', 'cent', 'max_centrality', 'i',
+        'centrality', 'kj', 'j', 'in_mod_nodes', 'neighbs', 'ksm', 'centm', 'gs', 'sm', 'Gw', 'G_pos', 'G_neg'],
     'bct/algorithms/centrality.py:kcoreness_centrality_bd': ['N', 'coreness', 'kn', 'k', 'CIJkcore', 'ss'],
     'bct/algorithms/centrality.py:kcoreness_centrality_bu': ['N', 'CIJund', 'coreness', 'kn', 'k', 'CIJkcore', 'ss'],
+    'bct/algorithms/centrality.py:module_degree_zscore': ['_', 'n', 'Z', 'i', 'Koi'],
     'bct/algorithms/centrality.py:pagerank_centrality': ['N', 'norm_falff', 'deg', 'D1', 'B', 'b', 'r'],
+    'bct/algorithms/centrality.py:participation_coef': ['_', 'n', 'Ko', 'Gc', 'Kc2', 'i', 'P'],
+    'bct/algorithms/centrality.py:participation_coef_sign': ['_', 'n', 'pcoef', 'S', 'Gc', 'Sc2', 'i', 'P', 'Ppos', 'Pneg'],
+    'bct/algorithms/centrality.py:subgraph_centrality': ['vals', 'vecs', 'Cs'],
+    'bct/algorithms/clustering.py:agreement': ['n_nodes', 'n_partitions', 'ind', 'D', 'a', 'b', 'i', 'j', 'y'],
+    'bct/algorithms/clustering.py:agreement_weighted': ['m', 'n', 'D', 'i', 'd'],
     'bct/algorithms/clustering.py:clustering_coef_bd': ['S', 'K', 'cyc3', 'CYC3', 'C'],
     'bct/algorithms/clustering.py:clustering_coef_bu': ['n', 'C', 'u', 'V', 'k', 'S'],
     'bct/algorithms/clustering.py:clustering_coef_wd': ['A', 'S', 'K', 'cyc3', 'CYC3', 'C'],
     'bct/algorithms/clustering.py:clustering_coef_wu': ['K', 'ws', 'cyc3', 'C'],
+    'bct/algorithms/clustering.py:clustering_coef_wu_sign': ['n', 'W_pos', 'K_pos', 'ws_pos', 'cyc3_pos', 'C_pos', 'W_neg', 'K_neg', 'ws_neg',
+        'cyc3_neg', 'C_neg', 'cyc2_pos', 'cyc2_neg', 'i', 'j', 'q', 'cyc3', 'cyc2', 'i', 'j', 'q', 'C'],
+    'bct/algorithms/clustering.py:consensus_und': ['rng', 'unique_partitions', 'n', 'r', 'ci_tmp', 'i', 'j', 'u', 'ciu', 'c', 'dup', 'flag', 'dt',
+        '_', 'nu'],
     'bct/algorithms/clustering.py:get_components': ['n', 'edge_map', 'u', 'v', 'union_sets', 'item', 'temp', 's', 'comps', 'i', 'comp_sizes'],
     'bct/algorithms/clustering.py:number_of_components': ['_', 'csizes'],
     'bct/algorithms/clustering.py:transitivity_bd': ['S', 'K', 'cyc3', 'CYC3'],
     'bct/algorithms/clustering.py:transitivity_bu': ['tri3', 'tri2'],
     'bct/algorithms/clustering.py:transitivity_wd': ['A', 'S', 'K', 'cyc3', 'CYC3'],
     'bct/algorithms/clustering.py:transitivity_wu': ['K', 'ws', 'cyc3'],
+    'bct/algorithms/core.py:assortativity_bin': ['deg', 'i', 'j', 'K', 'degi', 'degj', 'id', 'od', 'term1', 'term2', 'term3', 'r'],
+    'bct/algorithms/core.py:assortativity_wei': ['str', 'i', 'j', 'K', 'stri', 'strj', 'ist', 'ost', 'term1', 'term2', 'term3', 'r'],
+    'bct/algorithms/core.py:core_periphery_dir': ['rng', 'n', 'C', 's', 'p', 'b', 'B', 'cix', 'ncix', 'q', 'flag', 'it', 'ixes', 'Ct', 'Qt', 'ctix',
+        'nctix', 'q0', 'max_Qt', 'u'],
     'bct/algorithms/core.py:kcore_bd': ['peelorder', 'peellevel', 'iter', 'CIJkcore', 'id', 'od', 'deg', 'ff', 'kn'],
     'bct/algorithms/core.py:kcore_bu': ['peelorder', 'peellevel', 'iter', 'CIJkcore', 'deg', 'ff', 'kn'],
+    'bct/algorithms/core.py:rich_club_bd': ['id', 'od', 'deg', 'R', 'Nk', 'Ek', 'k', 'SmallNodes', 'subCIJ'],
+    'bct/algorithms/core.py:rich_club_bu': ['deg', 'R', 'Nk', 'Ek', 'k', 'SmallNodes', 'subCIJ'],
+    'bct/algorithms/core.py:rich_club_wd': ['nr_nodes', 'deg', 'Rw', 'wrank', 'k', 'SmallNodes', 'cutCIJ', 'Wr', 'Er', 'wrank_r'],
+    'bct/algorithms/core.py:rich_club_wu': ['nr_nodes', 'deg', 'Rw', 'wrank', 'k', 'SmallNodes', 'cutCIJ', 'Wr', 'Er', 'wrank_r'],
     'bct/algorithms/core.py:score_wu': ['CIJscore', 'str', 'ff', 'sn'],
     'bct/algorithms/degree.py:degrees_dir': ['id', 'od', 'deg'],
+    'bct/algorithms/degree.py:jdegree': ['n', 'id', 'od', 'szJ', 'J', 'i', 'J_od', 'J_id', 'J_bl'],
+    'bct/algorithms/degree.py:strengths_dir': ['istr', 'ostr'],
+    'bct/algorithms/degree.py:strengths_und_sign': ['n', 'Spos', 'Sneg', 'vpos', 'vneg'],
     'bct/algorithms/distance.py:breadth': ['n', 'white', 'gray', 'black', 'color', 'distance', 'branch', 'Q', 'u', 'ns', 'v'],
     'bct/algorithms/distance.py:breadthdist': ['n', 'D', 'i', '_', 'R'],
     'bct/algorithms/distance.py:charpath': ['Dv', 'lambda_', 'efficiency', 'ecc', 'radius', 'diameter'],
     'bct/algorithms/distance.py:distance_bin': ['D', 'n', 'nPATH', 'L'],
     'bct/algorithms/distance.py:distance_wei': ['n', 'D', 'B', 'u', 'S', 'G1', 'V', 'v', 'W', 'td', 'd', 'wi', 'ind', 'minD'],
     'bct/algorithms/distance.py:distance_wei_floyd': ['SPL', 'n', 'hops', 'Pmat', 'k', 'i2k_k2j', 'path', 'i', 'j', 'I'],
+    'bct/algorithms/distance.py:findpaths': ['n', 'k', 'pths', 'Pq', 'util', 'q', 'j', 'i', 'i_s', '_', 'nrp', 'allpths', 'npthscnt', 'len_npths',
+        'npths', 'endp', 'i', 'pb', 'nendp', 'j', 'pb_temp', 'pbx', 'npx', 'qstop', 'tpath', 'plq'],
+    'bct/algorithms/distance.py:findwalks': ['n', 'Wq', 'CIJpwr', 'q', 'twalk', 'wlq'],
     'bct/algorithms/distance.py:mean_first_passage_time': ['P', 'n', 'D', 'V', 'aux', 'index', 'w', 'W', 'I', 'Z', 'mfpt'],
+    'bct/algorithms/distance.py:navigation_wu': ['n', 'PL_bin', 'PL_wei', 'PL_dis', 'paths', 'i', 'j', 'curr_node', 'last_node', 'target',
+        'curr_paths', 'pl_bin', 'pl_wei', 'pl_dis', 'neighbors', 'min_ix', 'next_node', 'inf_ixes', 'sr'],
     'bct/algorithms/distance.py:reachdist': ['reachdist2', 'id', 'od', 'id0', 'od0'],
     'bct/algorithms/distance.py:retrieve_shortest_path': ['path_length', 'path', 'ind'],
+    'bct/algorithms/efficiency.py:diffusion_efficiency': ['n', 'mfpt', 'ediff', 'gediff'],
     'bct/algorithms/efficiency.py:efficiency_bin': ['distance_inv', 'D', 'n', 'nPATH', 'L', 'E', 'u', 'V', 'e', 'se', 'sa', 'numer', 'denom'],
+    'bct/algorithms/efficiency.py:efficiency_wei': ['distance_inv_wei', 'n', 'D', 'u', 'S', 'G1', 'V', 'v', 'W', 'td', 'minD', 'Gl', 'A', 'E', 'sw',
+        'e', 'se', 'numer', 'sa', 'denom'],
+    'bct/algorithms/efficiency.py:rout_efficiency': ['n', 'Erout', '_', 'GErout', 'Eloc', 'u', 'Gu', 'nGu', 'e'],
+    'bct/algorithms/generative.py:evaluate_generative_model': ['m', 'n', 'xk', 'xc', 'xb', 'xe', 'B', 'nB', 'K', 'kstats', 'bin_edges', 'bin_x', '_',
+        'bin_y', 'sum_x', 'sum_y', 'cdfsamp_x', 'cdfsamp_y', 'delta_cdf', 'ib', 'Bc', 'yk', 'yc', 'yb', 'ye'],
+    'bct/algorithms/generative.py:generative_model': ['rng', 'n', 'nparams', 'B', 'k_avg', 'k_diff', 'k_max', 'k_min', 'k_prod', 's_avg', 's_diff',
+        's_min', 's_max', 's_prod', 'x_avg', 'nr_ixes', 'Ksc', 'Kix', 'x_diff', 'x_max', 'x_min', 'x_prod', 'Ka', 'Kb', 'clu_gen', 'mseed', 'mv1',
+        'mv2', 'Fd', 'Fk', 'c', 'k', 'Ff', 'u', 'v', 'i', 'C', 'r', 'uu', 'vv', 'bu', 'bv', 'su', 'sv', 'bth', 'k_result', 'deg_gen', 'P', 'b',
+        'matching_gen', 'ii', 'updateuu', 'c1', 'j', 'c2', 'use', 'ncon', 'updatevv', 'neighbors_gen', 'x', 'y', 'euclidean_gen', 'Kseed', 'ep',
+        'gp', 'ep', 'gp', 'ep', 'gp', 'ep', 'gp', 'ep', 'gp', 'ep', 'gp', 'ep', 'gp', 'ep', 'gp', 'ep', 'gp', 'ep', 'gp', 'ep', 'gp', 'mi', '_',
+        'ep', 'gp', 'ep'],
     'bct/algorithms/modularity.py:_safe_squeeze': ['out'],
+    'bct/algorithms/modularity.py:ci2ls': ['_', 'nr_indices', 'ls', 'c', 'i', 'x'],
+    'bct/algorithms/modularity.py:community_louvain': ['rng', 'n', 's', '_', 'Mb', 'renormalize', 'W0', 's0', 'B0', 'W1', 's1', 'B1', 'Hnm', 'm',
+        'H', 'Hm', 'q0', 'q', 'first_iteration', 'it', 'flag', 'u', 'ma', 'dQ', 'max_dq', 'mb', 'M0', 'u', 'b1', 'i', 'j', 'bm'],
+    'bct/algorithms/modularity.py:link_communities': ['n', 'No', 'Ni', 'Jo', 'Ji', 'b', 'c', 'Do', 'Di', 'A', 'B', 'm', 'Ln', 'Lw', 'i', 'ES', 'j',
+        'a', 'C', 'Nc', 'Mc', 'Dc', 'U', 'j', 'ixes', 'links', 'nodes', 'nodulo', 'nc', 'mc', 'min_mc', 'dc', 'u1', 'u2', 'wehr', 'uc', 'ud', 'ugl',
+        'ug_rows', 'unq_rows', 'row', 'V', 'j', 'x', 'M', 'j'],
     'bct/algorithms/modularity.py:ls2ci': ['nr_indices', 'ci', 'z', 'i', 'x', 'j', 'y'],
     'bct/algorithms/modularity.py:modularity_dir': ['n', 'ki', 'ko', 'm', 'b', 'B', 'init_mod', 'modules', 'recur', 'modmat', 'vals', 'vecs',
         'rlvals', 'max_eigvec', 'mod_asgn', 'q', 'qmax', 'it', 'mod_asgn_iter', 'q_iter', 'imax', 'mod1', 'mod2', 'ci', 's'],
+    'bct/algorithms/modularity.py:modularity_finetune_dir': ['rng', 'n', '_', 's', 'knm_o', 'knm_i', 'm', 'k_o', 'k_i', 'km_o', 'km_i', 'flag', 'u',
+        'ma', 'dq_o', 'dq_i', 'dq', 'max_dq', 'mb', 'w', 'u', 'v', 'q'],
+    'bct/algorithms/modularity.py:modularity_finetune_und': ['rng', 'n', '_', 's', 'knm', 'm', 'k', 'km', 'flag', 'u', 'ma', 'dq', 'max_dq', 'mb',
+        'w', 'u', 'v', 'wm', 'q'],
+    'bct/algorithms/modularity.py:modularity_finetune_und_sign': ['rng', 'n', '_', 'W0', 'W1', 's0', 's1', 'Knm0', 'Knm1', 'm', 'Kn0', 'Kn1', 'Km0',
+        'Km1', 'd0', 'd1', 'flag', 'h', 'u', 'ma', 'dq0', 'dq1', 'dq', 'max_dq', 'mb', 'q0', 'q1', 'q'],
     'bct/algorithms/modularity.py:modularity_louvain_dir': ['rng', 'n', 's', 'h', 'ci', 'q', 'n0', 'k_o', 'k_i', 'km_o', 'km_i', 'knm_o', 'knm_i',
-        'm', 'flag', 'it', 'u', 'ma', 'dq_o', 'dq_i', 'dq', 'max_dq', 'mb', '_', 'i', 'W1', 'j'],
+        'm', 'flag', 'it', 'u', 'ma', 'dq_o', 'dq_i', 'dq', 'max_dq', 'mb', '_', 'i', 'W1', 'i', 'j'],
     'bct/algorithms/modularity.py:modularity_louvain_und': ['rng', 'n', 's', 'h', 'ci', 'q', 'n0', 'k', 'Km', 'Knm', 'm', 'flag', 'it', 'i', 'ma',
-        'dQ', 'max_dq', 'j', '_', 'W1', 'wp'],
+        'dQ', 'max_dq', 'j', '_', 'i', 'W1', 'i', 'wp'],
+    'bct/algorithms/modularity.py:modularity_louvain_und_sign': ['rng', 'n', 'W0', 'W1', 's0', 's1', 'd0', 'd1', 'h', 'nh', 'ci', 'q', 'kn0', 'kn1',
+        'km0', 'km1', 'knm0', 'knm1', 'm', 'flag', 'it', 'u', 'ma', 'dQ0', 'dQ1', 'dQ', 'max_dQ', 'mb', '_', 'u', 'wn0', 'wn1', 'u', 'v', 'q0', 'q1',
+        'ci_ret'],
+    'bct/algorithms/modularity.py:modularity_probtune_und_sign': ['rng', 'n', '_', 'W0', 'W1', 's0', 's1', 'Knm0', 'Knm1', 'm', 'Kn0', 'Kn1', 'Km0',
+        'Km1', 'd0', 'd1', 'u', 'ma', 'r', 'mb', 'dq0', 'dq1', 'dq', 'max_dq', 'q0', 'q1', 'q'],
     'bct/algorithms/modularity.py:modularity_und': ['n', 'k', 'm', 'B', 'init_mod', 'modules', 'recur', 'modmat', 'vals', 'vecs', 'rlvals',
         'max_eigvec', 'mod_asgn', 'q', 'qmax', 'it', 'mod_asgn_iter', 'q_iter', 'imax', 'mod1', 'mod2', 'ci', 's'],
-    'bct/algorithms/reference.py:makerandCIJdegreesfixed': ['rng', 'n', 'k', 'in_inv', 'out_inv', 'i_in', 'i_out', 'i', 'CIJ', 'edges', 'tried',
+    'bct/algorithms/modularity.py:modularity_und_sign': ['n', '_', 'W0', 'W1', 's0', 's1', 'Knm0', 'Knm1', 'm', 'Kn0', 'Kn1', 'Km0', 'Km1', 'd0',
+        'd1', 'q0', 'q1', 'q'],
+    'bct/algorithms/modularity.py:partition_distance': ['n', '_', 'cxy', 'Px', 'Py', 'Pxy', 'Hx', 'Hy', 'Hxy', 'Vin', 'Min'],
+    'bct/algorithms/physical_connectivity.py:density_dir': ['n', 'k', 'kden'],
+    'bct/algorithms/physical_connectivity.py:density_und': ['n', 'k', 'kden'],
+    'bct/algorithms/physical_connectivity.py:rentian_scaling': ['rng', 'm', 'xyzn', 'nmax', 'nmin', 'count', 'N', 'E', 'randx', 'l1', 'l2', 'l3',
+        'l4', 'l5', 'l6', 'L'],
+    'bct/algorithms/reference.py:latmio_dir': ['rng', 'n', 'ind_rp', 'un', 'um', 'u', 'v', 'i', 'j', 'k', 'max_attempts', 'eff', 'it', 'att', 'e1',
+        'e2', 'a', 'b', 'c', 'd', 'ind_rp_reverse', 'Rlatt'],
+    'bct/algorithms/reference.py:latmio_dir_connected': ['rng', 'n', 'ind_rp', 'un', 'um', 'u', 'v', 'i', 'j', 'k', 'max_attempts', 'eff', 'it',
+        'att', 'rewire', 'e1', 'e2', 'a', 'b', 'c', 'd', 'P', 'PN', 'ind_rp_reverse', 'Rlatt'],
+    'bct/algorithms/reference.py:latmio_und': ['rng', 'n', 'ind_rp', 'un', 'um', 'u', 'v', 'i', 'j', 'k', 'max_attempts', 'eff', 'it', 'att', 'e1',
+        'e2', 'a', 'b', 'c', 'd', 'ind_rp_reverse', 'Rlatt'],
+    'bct/algorithms/reference.py:latmio_und_connected': ['rng', 'n', 'ind_rp', 'un', 'um', 'u', 'v', 'i', 'j', 'k', 'max_attempts', 'eff', 'it',
+        'att', 'rewire', 'e1', 'e2', 'a', 'b', 'c', 'd', 'P', 'PN', 'ind_rp_reverse', 'Rlatt'],
+    'bct/algorithms/reference.py:makeevenCIJ': ['rng', 'mx_lvl', 't', 'Nlvl', 's', 'CIJ', 'lvl', 'grp1', 'grp2', 'ix1', 'ix2', 'CIJp', 'rem_k', 'a',
+        'b', 'rp', 'ai', 'bi'],
+    'bct/algorithms/reference.py:makefractalCIJ': ['rng', 't', 'n', 's', 'CIJ', 'lvl', 'grp1', 'grp2', 'ix1', 'ix2', 'ee', 'prob', 'k'],
+    'bct/algorithms/reference.py:makerandCIJ_dir': ['rng', 'ix', 'rp', 'CIJ'],
+    'bct/algorithms/reference.py:makerandCIJ_und': ['rng', 'ix', 'rp', 'CIJ'],
+    'bct/algorithms/reference.py:makerandCIJdegreesfixed': ['rng', 'n', 'k', 'in_inv', 'out_inv', 'i_in', 'i_out', 'i', 'CIJ', 'edges', 'i', 'tried',
         'switch', 't'],
     'bct/algorithms/reference.py:makeringlatticeCIJ': ['rng', 'CIJ', 'CIJ1', 'kk', 'count', 'seq', 'seq2', 'dCIJ', 'dCIJ2', 'overby', 'i', 'j', 'rp',
         'ii'],
+    'bct/algorithms/reference.py:maketoeplitzCIJ': ['rng', 'pf', 'template', 'CIJ', 'itr'],
     'bct/algorithms/reference.py:null_model_dir_sign': ['rng', 'n', 'Ap', 'An', 'W_r', '_', 'Ap_r', 'An_r', 'W0', 's', 'Acur', 'A_rcur', 'Si', 'So',
         'Wv', 'i', 'j', 'Lij', 'P', 'Oind', 'wsize', 'wei_period', 'lq', 'm', 'R', 'q', 'r', 'o', 'f', 'O', 'rpos_in', 'rpos_ou', 'rneg_in',
         'rneg_ou'],
     'bct/algorithms/reference.py:null_model_und_sign': ['rng', 'n', 'Ap', 'An', 'W_r', 'eff', 'Ap_r', 'An_r', 'W0', 's', 'Acur', 'A_rcur', 'S', 'Wv',
         'i', 'j', 'Lij', 'P', 'Oind', 'wsize', 'wei_period', 'lq', 'm', 'R', 'q', 'r', 'o', 'f', 'O', 'rpos_in', 'rpos_ou', 'rneg_in', 'rneg_ou'],
+    'bct/algorithms/reference.py:randmio_dir': ['rng', 'n', 'i', 'j', 'k', 'max_attempts', 'eff', 'it', 'att', 'e1', 'e2', 'a', 'b', 'c', 'd'],
+    'bct/algorithms/reference.py:randmio_dir_connected': ['rng', 'n', 'i', 'j', 'k', 'max_attempts', 'eff', 'it', 'att', 'rewire', 'e1', 'e2', 'a',
+        'b', 'c', 'd', 'P', 'PN'],
     'bct/algorithms/reference.py:randmio_dir_signed': ['rng', 'n', 'max_attempts', 'eff', 'it', 'att', 'a', 'b', 'c', 'd', 'r0_ab', 'r0_cd', 'r0_ad',
         'r0_cb'],
+    'bct/algorithms/reference.py:randmio_und': ['rng', 'n', 'i', 'j', 'k', 'max_attempts', 'eff', 'it', 'att', 'e1', 'e2', 'a', 'b', 'c', 'd'],
+    'bct/algorithms/reference.py:randmio_und_connected': ['rng', 'n', 'i', 'j', 'k', 'max_attempts', 'eff', 'it', 'att', 'rewire', 'e1', 'e2', 'a',
+        'b', 'c', 'd', 'P', 'PN'],
     'bct/algorithms/reference.py:randmio_und_signed': ['rng', 'n', 'max_attempts', 'eff', 'it', 'att', 'a', 'b', 'c', 'd', 'r0_ab', 'r0_cd', 'r0_ad',
         'r0_cb'],
+    'bct/algorithms/reference.py:randomize_graph_partial_und': ['rng', 'i', 'j', 'm', 'nswap', 'e1', 'e2', 'a', 'b', 'c', 'd'],
+    'bct/algorithms/reference.py:randomizer_bin_und': ['rng', 'ax', 'nr_poss_edges', 'savediag', 'i', 'j', 'k', 'swap', 'fullnodes', 'it', 'a', 'b',
+        'alliholes', 'alljholes', 'i_intersect', 'ii', 'jj', 'nummates', 'mate', 'c', 'd', 'm'],
+    'bct/algorithms/similarity.py:edge_nei_overlap_bd': ['ik', 'jk', 'lel', 'n', '_', 'deg', 'ec', 'degij', 'e', 'neiik', 'neijk', 'EC'],
+    'bct/algorithms/similarity.py:edge_nei_overlap_bu': ['ik', 'jk', 'lel', 'n', 'deg', 'ec', 'degij', 'e', 'neiik', 'neijk', 'EC'],
+    'bct/algorithms/similarity.py:matching_ind': ['n', 'Min', 'Mout', 'Mall', 'i', 'j', 'c1i', 'c2i', 'usei', 'nconi', 'c1o', 'c2o', 'useo', 'ncono',
+        'c1a', 'c2a', 'usea', 'ncona'],
+    'bct/algorithms/similarity.py:matching_ind_und': ['K', 'n', 'R', 'N', 'xR', 'CIJ', 'I', 'M', 'i', 'c1', 'use', 'ncon1', 'ncon2', 'ncon', 'M0',
+        'yR'],
     'bct/nbs.py:nbs_bct': ['rng', 'ttest2_stat_only', 't', 'n1', 'n2', 'vx', 'vy', 's', 'denom', 'ttest_paired_stat_only', 'd', 'n', 'df',
-        'sample_ss', 'unbiased_std', 'z', 'ix', 'jx', 'nx', 'iy', 'jy', 'ny', 'ixes', 'm', 'xmat', 'ymat', 'i', 't_stat', 'ind_t', 'adj', 'a', 'sz',
-        'ind_sz', 'nr_components', 'sz_links', 'nodes', 'max_sz', 'null', 'hit', 'u', 'indperm', 't_stat_perm', 'adj_perm', 'nr_components_perm',
-        'sz_links_perm', 'pvals'],
+        'sample_ss', 'unbiased_std', 'z', 'ix', 'jx', 'nx', 'iy', 'jy', 'ny', 'ixes', 'm', 'xmat', 'ymat', 'i', 'i', 't_stat', 'i', 'ind_t', 'adj',
+        'a', 'sz', 'ind_sz', 'nr_components', 'sz_links', 'i', 'nodes', 'max_sz', 'null', 'hit', 'u', 'indperm', 't_stat_perm', 'i', 'adj_perm',
+        'nr_components_perm', 'sz_links_perm', 'i', 'pvals', 'i'],
+    'bct/utils/miscellaneous_utilities.py:dummyvar': ['n', 'm', 'r', 'i', 'nnz', 'ix', 's_cis', 'mask', 'indptr', 'dv'],
     'bct/utils/miscellaneous_utilities.py:get_rng': ['rstate'],
     'bct/utils/miscellaneous_utilities.py:pick_four_unique_nodes_quickly': ['rng', 'k', 'a', 'b', 'c', 'd'],
+    'bct/utils/other.py:autofix': ['u'],
     'bct/utils/other.py:invert': ['E'],
     'bct/utils/other.py:threshold_proportional': ['n', 'ud', 'ind', 'I', 'en'],
 }
@@ -6506,6 +7163,7 @@ CANON_LOCALS = {
 # ====================================================================== entry points
 
 FAMILIES = {'floyd': family_floyd, 'peel': family_peel, 'util': family_util, 'comp': family_comp, 'dijk': family_dijk, 'path': family_path, 'bin': family_bin, 'bfs': family_bfs, 'reach': family_reach, 'betw': family_betw, 'clust': family_clust, 'char': family_char, 'eff': family_eff, 'walks': family_walks, 'modq': family_modq, 'nullm': family_nullm, 'nbs': family_nbs, 'synth': family_synth}
+FAMILIES.update({f_: _pin_only(f_) for f_ in ('pinrew', 'pinmod', 'pinpart', 'pindist', 'pinmeas', 'pinwalk', 'pingen', 'pinutil')})
 
 
 def write_if_changed(path, text):
@@ -6547,5 +7205,7 @@ if __name__ == '__main__':
         sys.stdout.write(FAMILIES[sys.argv[2]]()['text'])
     elif len(sys.argv) > 1 and sys.argv[1] == '--canon-locals':
         sys.stdout.write(canon_locals_text())
+    elif len(sys.argv) > 2 and sys.argv[1] == '--pin-references':
+        print('\n'.join(write_pin_references(sys.argv[2])))
     else:
         print(json.dumps(generate(sys.argv[1] if len(sys.argv) > 1 else None), indent=1))
